@@ -104,6 +104,33 @@ enum ResponseAnswer {
     Error { error: ResponseError },
 }
 
+#[cfg(feature = "verif")]
+impl Message {
+    /// Cheap description of a message for the verification trace.
+    pub fn verif_describe(&self) -> Value {
+        match self {
+            Self::Request(request) => serde_json::json!({"kind": "req", "id": request.id, "method": request.method,
+                "uri": request.params.pointer("/textDocument/uri").or_else(|| request.params.pointer("/uri"))}),
+            Self::Response(response) => response.verif_describe(),
+            Self::Notification(notification) => serde_json::json!({"kind": "note", "method": notification.method,
+                "uri": notification.params.pointer("/textDocument/uri").or_else(|| notification.params.pointer("/uri"))}),
+        }
+    }
+}
+
+#[cfg(feature = "verif")]
+impl Response {
+    /// Cheap description of a response for the verification trace.
+    pub fn verif_describe(&self) -> Value {
+        match &self.answer {
+            ResponseAnswer::Result { .. } => serde_json::json!({"kind": "resp", "id": self.id, "outcome": "result"}),
+            ResponseAnswer::Error { error } => {
+                serde_json::json!({"kind": "resp", "id": self.id, "outcome": "error", "code": error.to_value()["code"]})
+            }
+        }
+    }
+}
+
 pub struct LSCodec;
 
 impl Decoder for LSCodec {
@@ -156,10 +183,14 @@ impl Encoder<Message> for LSCodec {
 pub async fn responder(stdout: tokio::io::Stdout, mut rx: Receiver<Message>) {
     let mut framed_write = FramedWrite::new(stdout, LSCodec);
     while let Some(response) = rx.recv().await {
+        #[cfg(feature = "verif")]
+        let verif_sent = response.verif_describe();
         if let Err(err) = framed_write.send(response).await {
             log::error!("Sending responses failed: {:#?}", err);
             panic!("Sending responses failed: {:#?}", err);
         }
+        #[cfg(feature = "verif")]
+        crate::verif_trace::emit("W", "sent", verif_sent);
     }
 }
 
